@@ -54,6 +54,7 @@ type caseT struct {
 	AddStop  string `json:"add_conn_during_stop,omitempty"`     // core: "" | race | in-onopen (AddConn whose open callback is still running when Stop starts)
 	Transfer bool   `json:"ws_transfer_to_poller,omitempty"`    // http: Upgrader.BlockingModTrasferConnToPoller
 	WSSync   bool   `json:"ws_sync_write,omitempty"`            // http: Upgrader.BlockingModAsyncWrite = false
+	CloseAdd string `json:"close_vs_add_conn,omitempty"`        // core: "" | closed-first | close-race (Close of an nbio.Conn before / while it is handed to AddConn)
 }
 
 var modes = []string{"LT", "ET", "ONESHOT"}
@@ -83,6 +84,7 @@ func genCase(r *h.Run, idx int) caseT {
 		c.MaxWB = rng.Intn(3) == 0
 		if c.Net != "udp" {
 			c.AddStop = []string{"", "race", "in-onopen"}[rng.Intn(3)]
+			c.CloseAdd = []string{"", "", "closed-first", "close-race"}[rng.Intn(4)]
 		}
 	} else {
 		c.Transfer = rng.Intn(2) == 0
@@ -284,6 +286,41 @@ func runCase(r *h.Run, c caseT) {
 		}
 		for i := 0; i < c.Timers && i < len(sc); i++ {
 			_ = sc[len(sc)-1-i].SetDeadline(time.Now().Add(time.Hour))
+		}
+		if c.CloseAdd != "" {
+			// the owner closes a connection before, or while, it hands it to the engine (what nbhttp's
+			// own shutdown path does with connections that are just being added): whatever the engine
+			// announces for it must be paired, and Stop must return
+			if sp, err := syscall.Socketpair(syscall.AF_UNIX, syscall.SOCK_STREAM, 0); err == nil {
+				f0, f1 := os.NewFile(uintptr(sp[0]), "ca0"), os.NewFile(uintptr(sp[1]), "ca1")
+				mine, e0 := net.FileConn(f0)
+				other, e1 := net.FileConn(f1)
+				f0.Close()
+				f1.Close()
+				if e0 == nil && e1 == nil {
+					addPeer(other)
+					if nbc, err := nbio.NBConn(mine); err == nil {
+						if c.CloseAdd == "closed-first" {
+							_ = nbc.Close()
+							_, err = g.AddConn(nbc)
+						} else {
+							done := make(chan struct{})
+							d1, d2 := rng.Intn(60), rng.Intn(60)
+							go func() {
+								defer close(done)
+								time.Sleep(time.Duration(d1) * time.Microsecond)
+								_ = nbc.Close()
+							}()
+							time.Sleep(time.Duration(d2) * time.Microsecond)
+							_, err = g.AddConn(nbc)
+							<-done
+						}
+						r.Seen("close_vs_add", fmt.Sprintf("%s/refused=%v", c.CloseAdd, err != nil))
+					} else {
+						mine.Close()
+					}
+				}
+			}
 		}
 		var pendingDial int64
 		if c.Net == "tcp" && c.Dials > 0 {
